@@ -725,6 +725,266 @@ pub async fn ending_case(down: usize, end: &str, client: &str) -> Result<&'stati
     }
 }
 
+
+// ------------------------------------------------------------------------------------------------
+// C10 over HTTP/3: one final response with the documented code
+// ------------------------------------------------------------------------------------------------
+
+thread_local! {
+    static H3_ERRNO: std::cell::Cell<i32> = const { std::cell::Cell::new(0) };
+    static H3_REDIRECT: std::cell::Cell<u16> = const { std::cell::Cell::new(0) };
+}
+
+fn h3_rule(_a: &SocketAddr, t: i32) -> crate::engine::sys::ConnectAnswer {
+    use crate::engine::sys::ConnectAnswer;
+    if t != libc::SOCK_STREAM {
+        return ConnectAnswer::Errno(libc::ENETUNREACH);
+    }
+    let e = H3_ERRNO.with(|c| c.get());
+    if e != 0 {
+        ConnectAnswer::Errno(e)
+    } else {
+        ConnectAnswer::RedirectLoopback(H3_REDIRECT.with(|c| c.get()))
+    }
+}
+
+pub const H3_OUTCOMES: [&str; 9] = ["connected", "econnrefused", "enetunreach", "never-completes", "policy-loopback", "without-port", "reserved-check", "get-on-reserved", "reserved-with-port"];
+
+pub async fn outcome_case(outcome: &str) -> Result<&'static str, Violation> {
+    let case = json!({"kind":"quic-outcome","outcome":outcome});
+    let mk = |sig: &str, what: String| Violation::new(format!("C10:h3:{sig}:{outcome}"), what, case.clone());
+    let canary = door::start_canary().await;
+    let hole = door::black_hole().map_err(|e| Violation::new("C10:machinery", e, json!({})))?;
+    let mut cfg = Cfg { clients: users(), allow_private: outcome != "policy-loopback", ..Cfg::default() };
+    cfg.connect_timeout = Duration::from_millis(700);
+    let ep = start(cfg).await.map_err(|e| Violation::new("C10:machinery", e, json!({})))?;
+    H3_ERRNO.with(|c| c.set(match outcome { "econnrefused" => libc::ECONNREFUSED, "enetunreach" => libc::ENETUNREACH, _ => 0 }));
+    H3_REDIRECT.with(|c| c.set(if outcome == "never-completes" { hole.port } else { canary.addr.port() }));
+    crate::engine::sys::script_connect(Some(h3_rule));
+    let mut cl = QuicClient::new(ep.addr, &ClientOpts::default()).map_err(|e| Violation::new("C10:machinery", e, json!({})))?;
+    if !cl.handshake(Duration::from_secs(3)).await {
+        crate::engine::sys::script_connect(None);
+        return Err(Violation::new("C10:machinery", "QUIC handshake failed", case));
+    }
+    let auth = vec![("proxy-authorization".to_string(), AUTH.to_string())];
+    let id = match outcome {
+        "policy-loopback" => cl.request("CONNECT", "127.0.0.1:9", None, &auth, false),
+        "without-port" => cl.request("CONNECT", "93.184.216.34", None, &auth, false),
+        "reserved-check" => cl.request("CONNECT", "_check", None, &auth, false),
+        "get-on-reserved" => cl.request("GET", "_udp2", Some("/"), &auth, true),
+        "reserved-with-port" => cl.request("CONNECT", "_icmp:7", None, &auth, false),
+        _ => cl.request("CONNECT", "93.184.216.34:443", None, &auth, false),
+    }
+    .map_err(|e| Violation::new("C10:machinery", e, json!({})))?;
+    let r = cl.response(id, Duration::from_secs(4), 4096, Some(0)).await;
+    // a second final response would arrive as more headers on the stream: wait a little more
+    let extra = cl.response(id, Duration::from_millis(300), 4096, None).await;
+    cl.close();
+    crate::engine::sys::script_connect(None);
+    let warning = r.headers.iter().find(|(n, _)| n == "x-warning").map(|(_, v)| v.clone());
+    let want: (u16, Option<&str>) = match outcome {
+        "connected" | "reserved-check" => (200, None),
+        "econnrefused" => (502, Some("300")),
+        "enetunreach" => (502, Some("301")),
+        "never-completes" => (502, Some("302")),
+        "policy-loopback" => (502, Some("311")),
+        "get-on-reserved" => (502, None),
+        _ => (0, None),
+    };
+    let Some(status) = r.status else {
+        return Err(mk("no-final-response", format!("the request got no final response (finished {}, reset {:?})", r.finished, r.reset)));
+    };
+    if extra.status.is_some() {
+        return Err(mk("second-final-response", format!("a second response head ({:?}) followed {status}", extra.status)));
+    }
+    if want.0 == 0 {
+        // without port / reserved name with a port: exactly one final response, not a success for the former
+        if outcome == "without-port" && status == 200 {
+            return Err(mk("accepted-must-refuse", "CONNECT without a port answered 200".into()));
+        }
+        return Ok("one-final-response");
+    }
+    if status != want.0 {
+        return Err(mk("wrong-status", format!("answered {status}, documented {}", want.0)));
+    }
+    if let Some(code) = want.1 {
+        if !warning.as_deref().map(|w| w.starts_with(code)).unwrap_or(false) {
+            return Err(mk("wrong-warning", format!("X-Warning {warning:?}, documented code {code}")));
+        }
+    }
+    Ok("documented")
+}
+
+// ------------------------------------------------------------------------------------------------
+// C16 over HTTP/3: the HTTP3-labelled series
+// ------------------------------------------------------------------------------------------------
+
+pub async fn metrics_case() -> Result<&'static str, Violation> {
+    let case = json!({"kind":"quic-metrics"});
+    let mk = |sig: &str, what: String| Violation::new(format!("C16:h3:{sig}"), what, case.clone());
+    let dst = tokio::net::TcpListener::bind("127.0.0.1:0").await.map_err(|e| Violation::new("C16:machinery", e.to_string(), json!({})))?;
+    let daddr = dst.local_addr().unwrap();
+    let ep = start(Cfg { clients: users(), allow_private: true, metrics: true, ..Cfg::default() }).await.map_err(|e| Violation::new("C16:machinery", e, json!({})))?;
+    let snap = |ctx: &trusttunnel::verif_hooks::VContext| trusttunnel::verif_hooks::metrics_snapshot(ctx);
+    let h3 = |v: &[(String, i64)]| v.iter().find(|(l, _)| l.eq_ignore_ascii_case("HTTP3")).map(|(_, n)| *n).unwrap_or(0);
+    let h3u = |v: &[(String, u64)]| v.iter().find(|(l, _)| l.eq_ignore_ascii_case("HTTP3")).map(|(_, n)| *n).unwrap_or(0);
+    let s0 = snap(&ep.ctx);
+    let mut cl = QuicClient::new(ep.addr, &ClientOpts::default()).map_err(|e| Violation::new("C16:machinery", e, json!({})))?;
+    if !cl.handshake(Duration::from_secs(3)).await {
+        return Err(Violation::new("C16:machinery", "QUIC handshake failed", case));
+    }
+    cl.drive(Duration::from_millis(300), |_| false).await;
+    let s1 = snap(&ep.ctx);
+    if h3(&s1.client_sessions) - h3(&s0.client_sessions) != 1 {
+        return Err(mk("client_sessions", format!("one HTTP/3 session is open, client_sessions{{HTTP3}} went from {} to {}", h3(&s0.client_sessions), h3(&s1.client_sessions))));
+    }
+    let id = cl.request("CONNECT", &daddr.to_string(), None, &[("proxy-authorization".into(), AUTH.into())], false).map_err(|e| Violation::new("C16:machinery", e, json!({})))?;
+    let mut ds = None;
+    let t0 = std::time::Instant::now();
+    while ds.is_none() && t0.elapsed() < Duration::from_secs(3) {
+        cl.pump();
+        let mut acc = Box::pin(dst.accept());
+        if let Some(Ok((s, _))) = door::poll_once(&mut acc).await {
+            ds = Some(s);
+        }
+        drop(acc);
+        tokio::time::sleep(Duration::from_millis(2)).await;
+    }
+    let Some(mut ds) = ds else { return Err(Violation::new("C16:machinery", "destination not connected", case)) };
+    let _ = ds.set_linger(Some(Duration::ZERO));
+    let head = cl.response(id, Duration::from_secs(3), 4096, Some(0)).await;
+    if head.status != Some(200) {
+        return Err(Violation::new("C16:machinery", format!("CONNECT answered {:?}", head.status), case));
+    }
+    let s2 = snap(&ep.ctx);
+    if s2.outbound_tcp_sockets - s1.outbound_tcp_sockets != 1 {
+        return Err(mk("outbound_tcp_sockets", format!("one tunnel is open, the gauge went from {} to {}", s1.outbound_tcp_sockets, s2.outbound_tcp_sockets)));
+    }
+    // 700 bytes up, 1100 bytes down
+    let up = vec![0x75u8; 700];
+    let mut off = 0;
+    let t0 = std::time::Instant::now();
+    while off < up.len() && t0.elapsed() < Duration::from_secs(3) {
+        match cl.send_body(id, &up[off..], false) {
+            Ok(n) => off += n,
+            Err(_) => tokio::time::sleep(Duration::from_millis(1)).await,
+        }
+    }
+    let mut got = 0usize;
+    let t0 = std::time::Instant::now();
+    while got < up.len() && t0.elapsed() < Duration::from_secs(3) {
+        cl.pump();
+        let mut tmp = [0u8; 4096];
+        let n = {
+            let mut r = Box::pin(ds.read(&mut tmp));
+            door::poll_once(&mut r).await
+        };
+        match n {
+            Some(Ok(n)) if n > 0 => got += n,
+            Some(_) => break,
+            None => tokio::time::sleep(Duration::from_millis(1)).await,
+        }
+    }
+    {
+        let down = vec![0x64u8; 1100];
+        let mut w = Box::pin(ds.write_all(&down));
+        door::until(&mut w, Duration::from_secs(2)).await;
+    }
+    let body = cl.response(id, Duration::from_secs(3), 4096, Some(1100)).await;
+    cl.drive(Duration::from_millis(200), |_| false).await;
+    let s3 = snap(&ep.ctx);
+    let (du, dd) = (h3u(&s3.inbound_traffic_bytes) - h3u(&s2.inbound_traffic_bytes), h3u(&s3.outbound_traffic_bytes) - h3u(&s2.outbound_traffic_bytes));
+    if got != 700 || body.body.len() != 1100 {
+        return Err(Violation::new("C16:machinery", format!("relay moved {got} up / {} down", body.body.len()), case));
+    }
+    if du != 700 || dd != 1100 {
+        return Err(mk("traffic_bytes", format!("700 bytes were uploaded and 1100 downloaded over HTTP/3; inbound_traffic_bytes{{HTTP3}} grew by {du}, outbound_traffic_bytes{{HTTP3}} by {dd}")));
+    }
+    drop(ds);
+    cl.close();
+    let t0 = std::time::Instant::now();
+    loop {
+        cl.pump();
+        let s = snap(&ep.ctx);
+        if h3(&s.client_sessions) == h3(&s0.client_sessions) && s.outbound_tcp_sockets == s0.outbound_tcp_sockets {
+            break;
+        }
+        if t0.elapsed() > Duration::from_secs(8) {
+            return Err(mk("gauges-not-zero-after-the-client-left", format!("8 s after the QUIC connection was closed: client_sessions{{HTTP3}} = {}, outbound_tcp_sockets = {}", h3(&s.client_sessions), s.outbound_tcp_sockets)));
+        }
+        tokio::time::sleep(Duration::from_millis(20)).await;
+    }
+    Ok("series-follow")
+}
+
+// ------------------------------------------------------------------------------------------------
+// C14 over HTTP/3: the idle timer (real time, T = 1 s)
+// ------------------------------------------------------------------------------------------------
+
+pub async fn idle_case(active: bool) -> Result<&'static str, Violation> {
+    let case = json!({"kind":"quic-idle","active":active});
+    let mk = |sig: &str, what: String| Violation::new(format!("C14:h3:{sig}"), what, case.clone());
+    let dst = tokio::net::TcpListener::bind("127.0.0.1:0").await.map_err(|e| Violation::new("C14:machinery", e.to_string(), json!({})))?;
+    let daddr = dst.local_addr().unwrap();
+    let mut cfg = Cfg { clients: users(), allow_private: true, ..Cfg::default() };
+    cfg.tcp_timeout = Duration::from_secs(1);
+    let ep = start(cfg).await.map_err(|e| Violation::new("C14:machinery", e, json!({})))?;
+    let mut cl = QuicClient::new(ep.addr, &ClientOpts::default()).map_err(|e| Violation::new("C14:machinery", e, json!({})))?;
+    if !cl.handshake(Duration::from_secs(3)).await {
+        return Err(Violation::new("C14:machinery", "QUIC handshake failed", case));
+    }
+    let id = cl.request("CONNECT", &daddr.to_string(), None, &[("proxy-authorization".into(), AUTH.into())], false).map_err(|e| Violation::new("C14:machinery", e, json!({})))?;
+    let mut ds = None;
+    let t0 = std::time::Instant::now();
+    while ds.is_none() && t0.elapsed() < Duration::from_secs(3) {
+        cl.pump();
+        let mut acc = Box::pin(dst.accept());
+        if let Some(Ok((s, _))) = door::poll_once(&mut acc).await {
+            ds = Some(s);
+        }
+        drop(acc);
+        tokio::time::sleep(Duration::from_millis(2)).await;
+    }
+    let Some(mut ds) = ds else { return Err(Violation::new("C14:machinery", "destination not connected", case)) };
+    let _ = ds.set_linger(Some(Duration::ZERO));
+    let head = cl.response(id, Duration::from_secs(3), 4096, Some(0)).await;
+    if head.status != Some(200) {
+        return Err(Violation::new("C14:machinery", format!("CONNECT answered {:?}", head.status), case));
+    }
+    let started = std::time::Instant::now();
+    let mut closed_at = None;
+    let mut last_activity = std::time::Instant::now();
+    // watch the destination side for 3.2 s; an active tunnel moves a byte every 300 ms
+    while started.elapsed() < Duration::from_millis(3200) {
+        cl.pump();
+        if active && last_activity.elapsed() > Duration::from_millis(300) {
+            let _ = cl.send_body(id, b"k", false);
+            last_activity = std::time::Instant::now();
+        }
+        let mut tmp = [0u8; 64];
+        let n = {
+            let mut r = Box::pin(ds.read(&mut tmp));
+            door::poll_once(&mut r).await
+        };
+        match n {
+            Some(Ok(0)) | Some(Err(_)) => {
+                closed_at = Some(started.elapsed());
+                break;
+            }
+            _ => {}
+        }
+        tokio::time::sleep(Duration::from_millis(5)).await;
+    }
+    cl.close();
+    match (active, closed_at) {
+        (true, Some(t)) => Err(mk("closed-active-tunnel", format!("a tunnel moving a byte every 300 ms was closed after {:.1} s with a 1 s idle timeout", t.as_secs_f64()))),
+        (true, None) => Ok("active-stays-open"),
+        (false, None) => Err(mk("idle-tunnel-not-closed", "a tunnel idle for 3.2 s was not closed with a 1 s idle timeout (2T = 2 s)".into())),
+        (false, Some(t)) if t < Duration::from_millis(950) => Err(mk("closed-before-timeout", format!("an idle tunnel was closed after {:.2} s with a 1 s idle timeout", t.as_secs_f64()))),
+        (false, Some(_)) => Ok("idle-closed"),
+    }
+}
+
 // ------------------------------------------------------------------------------------------------
 // drivers
 // ------------------------------------------------------------------------------------------------
@@ -870,6 +1130,42 @@ pub fn c02_into(rep: &mut Report) {
     rep.violations(r.violations);
 }
 
+pub fn c10_into(rep: &mut Report) {
+    let mut classes = vec![];
+    for o in H3_OUTCOMES {
+        match super::guarded(|| run_blocking(outcome_case(o))) {
+            Ok(Ok(c)) => classes.push(format!("{o}:{c}")),
+            Ok(Err(v)) => rep.violation(v),
+            Err(p) => rep.violation(Violation::new(format!("C10:h3:panic:{o}"), p, json!({"kind":"quic-outcome","outcome":o}))),
+        }
+    }
+    rep.add("evaluations", H3_OUTCOMES.len() as u64);
+    rep.sub.push(json!({"sub":"http3-outcomes","cases":H3_OUTCOMES.len(),"classes":classes,
+        "what":"CONNECT over HTTP/3 x outcome of the outbound attempt {connected, ECONNREFUSED, ENETUNREACH, never completes (0.7 s establishment timeout), loopback forbidden, no port, _check, GET on _udp2, _icmp:7}: exactly one final response with the documented status / X-Warning"}));
+}
+
+pub fn c16_into(rep: &mut Report) {
+    match super::guarded(|| run_blocking(metrics_case())) {
+        Ok(Ok(c)) => rep.sub.push(json!({"sub":"http3-series","class":c,"what":"one QUIC session, one tunnel, 700 bytes up and 1100 down: client_sessions{HTTP3}, outbound_tcp_sockets and the HTTP3-labelled traffic counters follow, and return when the client leaves"})),
+        Ok(Err(v)) => rep.violation(v),
+        Err(p) => rep.violation(Violation::new("C16:h3:panic", p, json!({"kind":"quic-metrics"}))),
+    }
+}
+
+pub fn c14_into(rep: &mut Report) {
+    let mut classes = vec![];
+    let r = crate::engine::explore::sweep_dyn(2, 1, Duration::from_secs(60), 2, |i| match super::guarded(|| run_blocking(idle_case(i == 1))) {
+        Ok(Ok(c)) => Ok(std::borrow::Cow::Borrowed(c)),
+        Ok(Err(v)) => Err(v),
+        Err(p) => Err(Violation::new("C14:h3:panic", p, json!({"kind":"quic-idle","active": i == 1}))),
+    });
+    for k in r.classes.keys() {
+        classes.push(k.clone());
+    }
+    rep.sub.push(json!({"sub":"http3-idle-timer","cases":2,"classes":classes,"what":"HTTP/3 tunnel with a 1 s idle timeout in real time: idle => closed between 1 s and 3.2 s; a byte every 300 ms => open for 3.2 s"}));
+    rep.violations(r.violations);
+}
+
 pub fn c09_into(rep: &mut Report, tier: Tier) {
     let mut n = 0u64;
     for (family, d) in garbage_families(tier) {
@@ -921,6 +1217,12 @@ pub fn replay(case: &serde_json::Value) -> Option<Result<(), Violation>> {
             }
         }
         "quic-shutdown" => run_blocking(shutdown_case()).map(|_| ()),
+        "quic-outcome" => {
+            let o = H3_OUTCOMES.into_iter().find(|x| Some(*x) == case["outcome"].as_str()).unwrap_or("connected");
+            run_blocking(outcome_case(o)).map(|_| ())
+        }
+        "quic-metrics" => run_blocking(metrics_case()).map(|_| ()),
+        "quic-idle" => run_blocking(idle_case(case["active"].as_bool().unwrap_or(false))).map(|_| ()),
         "quic-service" => {
             let w = ["ping-host", "ping-marker", "download", "speedtest-host-download", "upload", "speedtest-host-upload"].into_iter().find(|x| Some(*x) == case["which"].as_str()).unwrap_or("ping-host");
             run_blocking(service_case(w)).map(|_| ())
